@@ -190,7 +190,7 @@ def gen_case(seed, run, tier):
                 rx = rx[: rw.randint(2, len(rx))]
         used = sorted(set().union(*[mbank.keys(i) for i in rx])) if rx else []
         extra = [k for k in keys if k not in used and rw.random() < 0.25]
-        kind = rw.choice(["none", "str", "list", "odict", "set", "objs"] if not formula_mode else ["odict", "objs", "list", "set", "str"])
+        kind = rw.choice(["none", "str", "list", "odict", "set", "objs", "dict"] if not formula_mode else ["odict", "objs", "list", "set", "str", "dict"])
         ks = used + extra
         if kind in ("list", "odict", "objs", "str") and rw.random() < 0.6:
             rw.shuffle(ks)
@@ -542,6 +542,8 @@ def execute(case):
                 sarg, exp_subs, sorts = set(ks), sorted(ks), True
             elif sk == "odict":
                 sarg, exp_subs, sorts = OrderedDict((k, mk_substance(k)) for k in ks), ks, False
+            elif sk == "dict":  # a plain dict of Substance objects is not an ordering promise: sorted unless told otherwise
+                sarg, exp_subs, sorts = dict((k, mk_substance(k)) for k in ks), ks, True
             else:  # objs
                 sarg, exp_subs, sorts = [mk_substance(k) for k in ks], ks, False
             shared_list = None
